@@ -547,6 +547,17 @@ class Body:
             if not pl["p"]:
                 return ("rv", rv)
             return ("place", pl)
+        if k == "aggregate" and pl["p"] and pl["p"][0]["k"] == "field" and rv.get("ak") in ("tuple", "adt", "array"):
+            # (a, b).0  ->  a
+            idx = pl["p"][0]["i"]
+            ops = rv["ops"]
+            if idx < len(ops):
+                sp = op_place(ops[idx])
+                if sp is None:
+                    if len(pl["p"]) == 1:
+                        return ("const", ops[idx])
+                    return ("place", pl)
+                return self._origin_place(compose(sp, pl["p"][1:]), stop_named, depth + 1)
         if pl["p"]:
             return ("place", pl)
         return ("rv", rv)
